@@ -16,6 +16,10 @@
 /*@unit {'name':'c04_put_copy', 'props':['C04'], 'entry':'h_put_copy', 'kind':'bounded', 'defines_quick':['NSLOTS=3','PUTCOPY'], 'defines_thorough':['NSLOTS=4','PUTCOPY'], 'unwind_quick':6, 'unwind_thorough':7,
   'bound':'pool of 3 / 4 slots, any forest', 'claims':'the put_copy opcode never leaves a slot whose children name it while its child chain is gone: it dies when the overwritten slot is attached or has children; otherwise the forest predicate is preserved and the list links of the overwritten slot are kept'}@*/
 
+/*@unit {'name':'c04_link_clusters', 'props':['C04'], 'tiers':['thorough'], 'entry':'h_link', 'kind':'bounded', 'defines_quick':['NSLOTS=3','LINKC'], 'defines_thorough':['NSLOTS=3','LINKC'], 'unwind_quick':5, 'unwind_thorough':5,
+  'bound':'pool of 3 slots, any well-formed list, any forest without base-chain links',
+  'claims':'Segment::linkClusters links the bases of the line into one sibling chain that contains each base exactly once (in stream order, reversed for right-to-left segments) and leaves attached slots alone'}@*/
+
 /*@include slots.tc@*/
 
 /* ---- the forest predicate of the property statement over the pool */
@@ -64,6 +68,11 @@ static bool Slot_removeChild_1(Slot *self, Slot *ap);
    'subs':[[r'\bthis\b', 'self', 0]], 'methods':['sibling'], 'self':['m_sibling','m_child']}@*/
 /*@extract {'file':'src/Slot.cpp', 'sig': r'bool Slot::removeChild\(Slot \*ap\)', 'emit':'static bool Slot_removeChild_1(Slot *self, Slot *ap)',
    'subs':[[r'\bthis\b', 'self', 0]], 'methods':['nextSibling'], 'self':['m_sibling','m_child']}@*/
+
+#ifdef LINKC
+/*@extract {'if':'LINKC', 'file':'src/Segment.cpp', 'sig': r'void Segment::linkClusters\(Slot \*s, Slot \* end\)', 'emit':'void Segment_linkClusters(Segment *self, Slot *s, Slot *end)',
+   'methods':['next','isBase','sibling'], 'self':['m_dir']}@*/
+#endif
 
 #ifdef ATTACH
 /* gr_attrCode, for the case label */
@@ -132,7 +141,7 @@ static uint8 Segment_numAttrs_0(const Segment *s) { (void)s; return 2; }
 bool nondet_bool(void); unsigned nondet_unsigned(void);
 static void all_live(bool live[NSLOTS]) { for (int i = 0; i < NSLOTS; ++i) live[i] = true; }
 
-#if !defined(ATTACH) && !defined(FREESLOT) && !defined(PUTCOPY)
+#if !defined(ATTACH) && !defined(FREESLOT) && !defined(PUTCOPY) && !defined(LINKC)
 void h_child(void)
 {
     bool live[NSLOTS]; all_live(live);
@@ -252,6 +261,33 @@ void h_put_copy(void)
     (void)cont;
     __CPROVER_assert(wf_forest(live), "put_copy: the forest predicate holds afterwards (an overwritten slot never keeps children that name it)");
     if (cur && !g_died) __CPROVER_assert(cur->m_next == nx && cur->m_prev == pv, "put_copy: the list links of the overwritten slot are kept");
+    CANARY();
+}
+#endif
+
+#ifdef LINKC
+void h_link(void)
+{
+    bool live[NSLOTS]; all_live(live);
+    havoc_links();
+    Segment sg; sg.m_first = pick_slot(); sg.m_last = pick_slot(); sg.m_dir = (int8)nondet_unsigned();
+    int o0[NSLOTS], n0;
+    __CPROVER_assume(wf_list(sg.m_first, sg.m_last, o0, &n0) && n0 >= 1);
+    for (int i = 0; i < NSLOTS; ++i) live[i] = in_order(o0, n0, i);
+    __CPROVER_assume(wf_forest(live) && bases_unlinked(live));
+    Slot saved[NSLOTS]; for (int i = 0; i < NSLOTS; ++i) saved[i] = g_pool[i];
+    Segment_linkClusters(&sg, sg.m_first, sg.m_last);
+    /* the bases in stream order */
+    int bases[NSLOTS], nb = 0;
+    for (int k = 0; k < NSLOTS; ++k) if (k < n0 && !g_pool[o0[k]].m_parent) bases[nb++] = o0[k];
+    bool rtl = (sg.m_dir & 1) != 0;
+    for (int j = 0; j < NSLOTS; ++j) if (j < nb) {
+        int nxt = rtl ? (j > 0 ? bases[j - 1] : -1) : (j + 1 < nb ? bases[j + 1] : -1);
+        __CPROVER_assert(g_pool[bases[j]].m_sibling == (nxt < 0 ? (Slot *)0 : &g_pool[nxt]), "linkClusters: each base's sibling link is the next base in stream order (previous one for right-to-left), the last one ends the chain");
+    }
+    for (int i = 0; i < NSLOTS; ++i) if (live[i] && g_pool[i].m_parent)
+        __CPROVER_assert(g_pool[i].m_sibling == saved[i].m_sibling && g_pool[i].m_parent == saved[i].m_parent && g_pool[i].m_child == saved[i].m_child, "linkClusters: attached slots are left alone");
+    __CPROVER_assert(wf_forest(live), "linkClusters: the forest predicate still holds");
     CANARY();
 }
 #endif
